@@ -539,4 +539,139 @@ theorem frames_itemOk (env : Env) (fuel : Nat) (inp : Bytes) : ∀ it ∈ frames
 
 
 
+/-! ## the next offset never decreases -/
+
+theorem maybeKeep_off_le (o : Opts) (s : St) (r : Rec) (ab : Bool) : s.off ≤ (maybeKeepRecord o s r ab).off := by
+  unfold maybeKeepRecord
+  split
+  · exact Int.le_refl _
+  · simp only; omega
+
+theorem procRecords_off_le (o : Opts) (b : Batch) (ab : Bool) :
+    ∀ (ks : List KRec) (slab : Nat) (handled : Bool) (s s' : St),
+      procRecords o b ab ks slab handled s = some s' → s.off ≤ s'.off := by
+  intro ks
+  induction ks with
+  | nil => intro slab handled s s' h; simp [procRecords] at h; subst h; exact Int.le_refl _
+  | cons k ks ih =>
+    intro slab handled s s' h
+    have hk := maybeKeep_off_le o s (recordToRecord b k) ab
+    unfold procRecords at h
+    simp only at h
+    split at h
+    · simp at h
+    · split at h
+      · split at h
+        · simp at h
+        · split at h
+          · simp at h
+          · have := ih _ _ _ _ h; simp only at this; omega
+        · have := ih _ _ _ _ h; omega
+      · have := ih _ _ _ _ h; omega
+
+theorem processRecordBatch_off_le (o : Opts) (s s' : St) (b : Batch) (h : processRecordBatch o s b = some s') : s.off ≤ s'.off := by
+  unfold processRecordBatch at h
+  simp only at h
+  split at h; · simp at h; subst h; exact Int.le_refl _
+  split at h; · simp at h; subst h; exact Int.le_refl _
+  split at h; · simp at h; subst h; exact Int.le_refl _
+  split at h; · simp at h; subst h; exact Int.le_refl _
+  split at h; · simp at h; subst h; exact Int.le_refl _
+  split at h; · simp at h
+  split at h; · simp at h
+  split at h; · simp at h
+  rename_i s2 hp
+  have := procRecords_off_le _ _ _ _ _ _ _ _ hp
+  injection h with h
+  subst h
+  have key : ∀ (C : Prop) [Decidable C] (X : Int), (C → s2.off < X) → s.off ≤ (if C then { s2 with off := X } else s2).off := by
+    intro C _ X hC
+    split
+    · rename_i hc; have := hC hc; simp only; omega
+    · exact this
+  exact key _ _ (fun hc => hc.2)
+
+theorem processMessage_off_le (o : Opts) (s : St) (m : Msg) : s.off ≤ (processMessage o s m).1.off := by
+  unfold processMessage
+  repeat' split
+  all_goals first | exact Int.le_refl _ | exact maybeKeep_off_le _ _ _ _
+
+theorem processInner_off_le (o : Opts) (base : Int) (codec : Nat) : ∀ (ms : List Msg) (s : St), s.off ≤ (processInner o base codec s ms).off := by
+  intro ms
+  induction ms with
+  | nil => intro s; simp [processInner]
+  | cons m ms ih =>
+    intro s
+    unfold processInner
+    simp only
+    have h1 := processMessage_off_le o s { m with offset := m.offset + base, attrs := m.attrs ||| codec }
+    split
+    · have := ih (processMessage o s { m with offset := m.offset + base, attrs := m.attrs ||| codec }).1; omega
+    · exact h1
+
+theorem processOuter_off_le (o : Opts) (s s' : St) (m : Msg) (inner : Inner) (h : processOuter o s m inner = some s') : s.off ≤ s'.off := by
+  unfold processOuter at h
+  simp only at h
+  split at h; · simp at h; subst h; exact processMessage_off_le _ _ _
+  split at h; · simp at h; subst h; exact Int.le_refl _
+  generalize hs1 : setErr s inner.err = s1 at h
+  have hoff : s1.off = s.off := by subst hs1; cases inner.err <;> rfl
+  split at h
+  · split at h
+    · simp at h
+    · cases h; omega
+  · split at h; · simp at h
+    split at h
+    · split at h
+      · split at h
+        · simp at h
+        · split at h
+          · cases h; simp only; omega
+          · cases h
+            have := processInner_off_le o (m.offset - ‹Msg›.offset) (m.attrs % 4) inner.msgs s1
+            omega
+      · cases h
+        have := processInner_off_le o 0 (m.attrs % 4) inner.msgs s1
+        omega
+    · cases h
+      have := processInner_off_le o 0 (m.attrs % 4) inner.msgs s1
+      omega
+
+theorem stepItem_off_le (o : Opts) (s s' : St) (it : Item) (h : stepItem o s it = some s') : s.off ≤ s'.off := by
+  cases it with
+  | panic => simp [stepItem] at h
+  | stop e => simp [stepItem] at h; subst h; exact Int.le_refl _
+  | badMagic off => simp [stepItem] at h; subst h; simp only; split <;> omega
+  | batch b =>
+    simp only [stepItem] at h
+    cases hp : processRecordBatch o s b with
+    | none => simp [hp] at h
+    | some s2 =>
+      have := processRecordBatch_off_le o s s2 b hp
+      simp [hp] at h; subst h; split <;> simpa using this
+  | msg m i =>
+    simp only [stepItem] at h
+    cases hp : processOuter o s m i with
+    | none => simp [hp] at h
+    | some s2 =>
+      have := processOuter_off_le o s s2 m i hp
+      simp [hp] at h; subst h; split <;> simpa using this
+
+theorem walk_off_le (o : Opts) : ∀ (items : List Item) (s s' : St), walk o s items = some s' → s.off ≤ s'.off := by
+  intro items
+  induction items with
+  | nil => intro s s' h; simp [walk] at h; subst h; exact Int.le_refl _
+  | cons it its ih =>
+    intro s s' h
+    unfold walk at h
+    split at h
+    · simp at h; subst h; exact Int.le_refl _
+    · cases hs : stepItem o s it with
+      | none => simp [hs] at h
+      | some s2 =>
+        simp [hs] at h
+        have h1 := stepItem_off_le o s s2 it hs
+        have h2 := ih s2 s' h
+        omega
+
 end Proof.C06
